@@ -385,6 +385,10 @@ func vkExecute(m rtnetlink.Message, family uint16, flags netlink.HeaderFlags) ([
 			}
 			rm := &rtnetlink.RouteMessage{Family: unix.AF_INET6, DstLength: uint8(r.Prefix.Bits()),
 				Attributes: rtnetlink.RouteAttributes{Dst: r.Prefix.Addr().AsSlice(), OutIface: req.Attributes.OutIface}}
+			// (The kernel sends no destination attribute for a default route, and the addresser panics on that:
+			// known finding F21, recorded under C15's OS part, which reproduces the kernel's shape.  Here the
+			// attribute is sent all the same, so that the finding is excluded by construction and the whole-process
+			// parts of the other properties keep exploring states with a default route on loopback.)
 			out = append(out, rm)
 		}
 	}
